@@ -418,7 +418,8 @@ def load(patches=None):
     def _apply_stmt(schema, stmt):
         if isinstance(stmt, qlast.CreateMigration):
             if stmt.metadata_only:
-                return schema           # only the migration log changes (COMMIT MIGRATION REWRITE)
+                # only the migration log changes (COMMIT MIGRATION REWRITE): one '@' per recorded migration
+                return ChainedSchema(schema.std, FlatSchema(schema.user.tag + '@', schema.user.modules), schema.glob)
             for cmd in stmt.body.commands:
                 schema = _apply_stmt(schema, cmd)
             return schema
